@@ -1,0 +1,25 @@
+//go:build verif
+
+package lossy
+
+import "sync/atomic"
+
+// Scheduling hook points of the row-pipelined encoder (verification only).
+const (
+	verifEvClaim = iota
+	verifEvProc
+	verifEvSignal
+	verifEvRecord
+	verifEvSlowWait
+)
+
+// VerifSchedHook, when set, is called at every hook point with the event kind,
+// an opaque worker identity (0 for the Phase-B recorder), and the row/column.
+// It may sleep or yield to perturb the schedule and may record a trace.
+var VerifSchedHook atomic.Pointer[func(ev int, worker uintptr, y, x int)]
+
+func verifSched(ev int, w *RowWorker, y, x int) {
+	if f := VerifSchedHook.Load(); f != nil {
+		(*f)(ev, workerID(w), y, x)
+	}
+}
